@@ -339,7 +339,7 @@ def override_case(draw):
     elif key == "RATIO_STOCKS_UNTOUCHED":
         v = draw(st.sampled_from([0.0, 1.0]) | st.floats(0, 1))
     elif key == "kg_meat_per_large_animal":
-        v = draw(st.floats(50, 600))
+        v = draw(st.sampled_from([0.0]) | st.floats(0, 600))
     else:
         v = draw(st.sampled_from([0.0, 1.0, 10.0]) | st.floats(0, 10))
     return dict(kind="override", iso3=iso, options=o, key=key, value=v)
@@ -474,6 +474,27 @@ def shard(ctx):
         except Violation as viol:
             ctx.record_violation(viol)
 
+    # the dispatcher rewrites a few known-bad (country, option) combinations on a private copy: the caller's dictionary must survive
+    rewrites = [("SLV", dict(scenario="seaweed", shutoff="continued", cull="do_eat_culled")),
+                ("ALB", dict(scenario="all_resilient_foods", shutoff="short_delayed_shutoff", cull="do_eat_culled")),
+                ("ECU", dict(scenario="greenhouse", crop_disruption="zero", meat_strategy="feed_only_ruminants", ratio_stocks_untouched="zero",
+                             cull="do_eat_culled", shutoff="long_delayed_shutoff"))]
+    for i, (iso, ov) in enumerate(rewrites):
+        if i % ctx.nshards != ctx.shard:
+            continue
+        ctx.count()
+        o = dict(model.BASELINE_COUNTRY, **ov)
+        snap = copy.deepcopy(o)
+        try:
+            c1, _, _ = dispatch(iso, o)
+            if o != snap:
+                ctx.fail("callers-option-dictionary-modified", "%s: %s" % (iso, {k: (snap[k], o[k]) for k in o if o[k] != snap[k]}),
+                         dict(kind="rewrite", iso3=iso, options=snap))
+            ctx.event("known_bad_rewrite_applied" if c1["DELAY"]["FEED_SHUTOFF_MONTHS"] == 0 else "known_bad_rewrite_not_applied")
+            ctx.nontrivial_case(["rewrite", iso])
+        except Violation as viol:
+            ctx.record_violation(viol)
+
     drive(ctx, bad_case(), lambda c: check_rejection(ctx, c["iso3"], c["options"], "%s %s=%r" % (c["how"], c["family"], c["options"].get(c["family"])), c),
           400 if thorough else 12, shrink=False, tag="bad")
     drive(ctx, override_case(), lambda c: check_override(ctx, c), 1500 if thorough else 30, shrink=False, tag="override")
@@ -523,6 +544,11 @@ def replay(case, ctx):
         check_rejection(ctx, case["iso3"], case["options"], case["how"], case)
     elif k == "override":
         check_override(ctx, case)
+    elif k == "rewrite":
+        o = copy.deepcopy(case["options"])
+        dispatch(case["iso3"], o)
+        if o != case["options"]:
+            ctx.fail("callers-option-dictionary-modified", case["iso3"], case)
     elif k == "head":
         check_head_reaches_herd(ctx, case["iso3"], case["key"], case["value"], case)
     else:
